@@ -76,8 +76,16 @@ def dawsonLarge (exp : Rat → Rat) (x : Rat) : Rat :=
 def dawson (exp : Rat → Rat) (x : Rat) : Rat :=
   if rabs x < 2 / 10 then dawsonSmall x else dawsonLarge exp x
 
-/-- `Erfi(x) = 2/sqrt(π) · exp(x²) · Dawson(x)`; `twoOverSqrtPi` is the value of `2.0 / std::sqrt(M_PI)` -/
+/-- `Erfi(x)` as coded after 09597b4: `e = exp(0.5·x·x); return 2/sqrt(π) · Dawson(x) · e · e` — the small
+    factor `Dawson(x)` is multiplied first and the exponential is split, so that no intermediate product
+    overflows while the result is a double (`|x| ≤ 26.71`); `twoOverSqrtPi` is the value of `2.0 / std::sqrt(M_PI)` -/
 def erfi (exp : Rat → Rat) (twoOverSqrtPi : Rat) (x : Rat) : Rat :=
+  let e := exp (1 / 2 * x * x)
+  twoOverSqrtPi * dawson exp x * e * e
+
+/-- the evaluation order before 09597b4: `2/sqrt(π) · exp(x²) · Dawson(x)` (overflows in double
+    arithmetic for `|x| > 26.6395` although the value is representable up to `26.71`) -/
+def erfiDirect (exp : Rat → Rat) (twoOverSqrtPi : Rat) (x : Rat) : Rat :=
   twoOverSqrtPi * exp (x * x) * dawson exp x
 
 inductive InvErfCase where
